@@ -159,6 +159,10 @@ class World:
     def draw_config(cls, rng, focus):
         raise NotImplementedError
 
+    @classmethod
+    def deepen(cls, cfg, r):
+        cfg["nsteps"] = min(cfg["nsteps"] * 3, 360)
+
     def setup(self):
         pass
 
@@ -318,9 +322,18 @@ def execute_run(world_cls, cfg, steps=None, rngs=None):
     }
 
 
+def deep():
+    """Thorough tier: a third of the runs use deeper bounds (longer histories,
+    larger tracks and graphs) than the quick tier ever draws."""
+    return os.environ.get("VERIF_DEEP") == "1"
+
+
 def generated_run(world_cls, focus, seed):
     rngs = Rngs(seed)
     cfg = world_cls.draw_config(rngs("config"), focus)
+    if deep() and rngs("deep").random() < 0.35:
+        world_cls.deepen(cfg, rngs("deep"))
+        cfg["deep"] = True
     cfg["focus"] = focus
     res = execute_run(world_cls, cfg, None, rngs)
     res["seed"] = seed
